@@ -35,7 +35,9 @@ import (
 // Engine "sync": StatefulSetController.sync (stateful_set.go) with the real pod control, the real status updater and the
 // real revision handling, against fake clientsets with a recording, fault-injecting reactor and hand-built listers.
 //
-//	case: paused|selOk|r|slots|pol|strat|ru|del|gen|stored|cc|lim|tmpl|fuid|fdel|store|pods|names|faults
+//	case: paused|selOk|r|slots|pol|strat|ru|del|gen|stored|cc|lim|tmpl|fuid|fdel|store|pods|names|faults[|claims]
+//	  claims (optional)  <ordinals whose claim is in the PVC cache and the API>:<ordinals whose claim is in the API only>; the set then
+//	                     has one claim template; such cases are judged by the monitors only (the sync model has no claims)
 //	  paused 0 absent | 1 "true" | 2 "True" (not the pause value)      selOk 1 matchLabels | 0 selector does not convert | 2 empty selector (matches everything)
 //	  stored replicas,ready,current,updated,currentRev,updateRev,observedGen   cc nil|<int> (status.collisionCount)   lim revisionHistoryLimit
 //	  tmpl  identifier of the current pod template      fuid 1 same uid | 0 other uid | 2 gone from the API     fdel fresh object carries a deletion timestamp
@@ -80,23 +82,28 @@ type syCase struct {
 	paused int
 	selOk  bool
 	selAll bool // the selector is {} and matches every pod and revision of the namespace, label-less ones included
-	r      int
-	slots  []int
-	pol    string
-	strat  string
-	ru     string
-	del    bool
-	gen    int
-	stored [7]string
-	cc     string
-	lim    int
-	tmpl   string
-	fuid   int
-	fdel   bool
-	store  []syRev
-	pods   []syPod
-	names  string
-	faults []syFault
+	// claims mode (optional 20th field "cache ordinals:api-only ordinals"): the set has one claim template "data"; claims exist for
+	// the listed ordinals in the PVC cache + API, or in the API only (a cache that lags). Judged by the monitors only.
+	claims   bool
+	pvcCache []int
+	pvcAPI   []int
+	r        int
+	slots    []int
+	pol      string
+	strat    string
+	ru       string
+	del      bool
+	gen      int
+	stored   [7]string
+	cc       string
+	lim      int
+	tmpl     string
+	fuid     int
+	fdel     bool
+	store    []syRev
+	pods     []syPod
+	names    string
+	faults   []syFault
 }
 
 func (c *syCase) line() string {
@@ -114,14 +121,18 @@ func (c *syCase) line() string {
 	if c.selAll {
 		selField = "2"
 	}
+	tail := ""
+	if c.claims {
+		tail = "|" + joinInts(c.pvcCache) + ":" + joinInts(c.pvcAPI)
+	}
 	return strings.Join([]string{strconv.Itoa(c.paused), selField, strconv.Itoa(c.r), joinInts(c.slots), c.pol, c.strat, c.ru, b2s(c.del), strconv.Itoa(c.gen),
-		strings.Join(c.stored[:], ","), c.cc, strconv.Itoa(c.lim), c.tmpl, strconv.Itoa(c.fuid), b2s(c.fdel), strings.Join(rs, ";"), strings.Join(ps, ";"), c.names, strings.Join(fs, ";")}, "|")
+		strings.Join(c.stored[:], ","), c.cc, strconv.Itoa(c.lim), c.tmpl, strconv.Itoa(c.fuid), b2s(c.fdel), strings.Join(rs, ";"), strings.Join(ps, ";"), c.names, strings.Join(fs, ";")}, "|") + tail
 }
 
 func parseSyCase(line string) (*syCase, error) {
 	f := strings.Split(line, "|")
-	if len(f) != 19 {
-		return nil, fmt.Errorf("want 19 fields, got %d", len(f))
+	if len(f) != 19 && len(f) != 20 {
+		return nil, fmt.Errorf("want 19 or 20 fields, got %d", len(f))
 	}
 	c := &syCase{paused: atoi(f[0]), selOk: f[1] != "0", selAll: f[1] == "2", r: atoi(f[2]), slots: parseInts(f[3]), pol: f[4], strat: f[5], ru: f[6], del: f[7] == "1", gen: atoi(f[8]),
 		cc: f[10], lim: atoi(f[11]), tmpl: f[12], fuid: atoi(f[13]), fdel: f[14] == "1", names: f[17]}
@@ -130,6 +141,13 @@ func parseSyCase(line string) (*syCase, error) {
 		return nil, fmt.Errorf("stored status wants 7 fields")
 	}
 	copy(c.stored[:], st)
+	if len(f) == 20 {
+		q := strings.Split(f[19], ":")
+		if len(q) != 2 {
+			return nil, fmt.Errorf("bad claims field %q", f[19])
+		}
+		c.claims, c.pvcCache, c.pvcAPI = true, parseInts(q[0]), parseInts(q[1])
+	}
 	if f[15] != "" {
 		for _, t := range strings.Split(f[15], ";") {
 			q := strings.Split(t, ":")
@@ -355,10 +373,17 @@ func syOwnerRefs(owner string) []metav1.OwnerReference {
 	return nil
 }
 
+func syClaim(ord int) *v1.PersistentVolumeClaim {
+	return &v1.PersistentVolumeClaim{ObjectMeta: metav1.ObjectMeta{Name: fmt.Sprintf("data-%s-%d", rcSetName, ord), Namespace: rcNS,
+		Labels: map[string]string{"app": rcSetName}}}
+}
+
 func syPatchOf(c *syCase, data string) []byte {
 	s := baseSet(rcSetName, int32(c.r), "img-"+data)
-	s.Spec.VolumeClaimTemplates = nil
-	s.Spec.Template.Spec.Containers[0].VolumeMounts = nil
+	if !c.claims {
+		s.Spec.VolumeClaimTemplates = nil
+		s.Spec.Template.Spec.Containers[0].VolumeMounts = nil
+	}
 	p, err := sts.VerifGetPatch(s)
 	if err != nil {
 		panic(err)
@@ -403,8 +428,10 @@ func buildSyWorld(c *syCase) *syWorld {
 	// the cached set
 	set := baseSet(rcSetName, int32(c.r), "img-"+c.tmpl)
 	set.UID = syUID
-	set.Spec.VolumeClaimTemplates = nil
-	set.Spec.Template.Spec.Containers[0].VolumeMounts = nil
+	if !c.claims {
+		set.Spec.VolumeClaimTemplates = nil
+		set.Spec.Template.Spec.Containers[0].VolumeMounts = nil
+	}
 	set.Generation = int64(c.gen)
 	set.Spec.PodManagementPolicy = policyOf(c.pol)
 	set.Spec.UpdateStrategy = strategyOf(c.strat, c.ru)
@@ -519,12 +546,18 @@ func buildSyWorld(c *syCase) *syWorld {
 		w.cpods = append(w.cpods, pod)
 		kubeObjs = append(kubeObjs, pod.DeepCopy())
 	}
+	for _, o := range append(append([]int(nil), c.pvcCache...), c.pvcAPI...) {
+		kubeObjs = append(kubeObjs, syClaim(o))
+	}
 	w.kube = kubefake.NewSimpleClientset(kubeObjs...)
 	w.kube.PrependReactor("*", "*", w.react)
 	w.pc.PrependReactor("*", "*", w.react)
 	setIdx := cache.NewIndexer(cache.MetaNamespaceKeyFunc, cache.Indexers{cache.NamespaceIndex: cache.MetaNamespaceIndexFunc})
 	_ = setIdx.Add(set)
 	pvcIdx := cache.NewIndexer(cache.MetaNamespaceKeyFunc, cache.Indexers{cache.NamespaceIndex: cache.MetaNamespaceIndexFunc})
+	for _, o := range c.pvcCache {
+		_ = pvcIdx.Add(syClaim(o))
+	}
 	w.ctl = sts.VerifNewController(w.kube, w.pc, appslisters.NewStatefulSetLister(setIdx), &orderedPodLister{w.cpods},
 		corelisters.NewPersistentVolumeClaimLister(pvcIdx), record.NewFakeRecorder(10000))
 	return w
@@ -738,6 +771,20 @@ func genSyCase(rng *rand.Rand) *syCase {
 		c.selOk = false
 	}
 	c.selAll = c.selOk && rng.Intn(12) == 0
+	if rng.Intn(7) == 0 {
+		// claims mode: a claim template, a PVC cache that may lag behind the API
+		c.claims = true
+		seenC := map[int]bool{}
+		for o := 0; o < c.r+nslots+1; o++ {
+			switch weighted(rng, 50, 30, 20) {
+			case 1:
+				c.pvcCache = append(c.pvcCache, o)
+				seenC[o] = true
+			case 2:
+				c.pvcAPI = append(c.pvcAPI, o)
+			}
+		}
+	}
 	c.del = rng.Intn(10) == 0
 	c.fuid = pick(rng, 1, 1, 1, 1, 1, 1, 1, 1, 0, 2)
 	c.fdel = c.del && rng.Intn(3) != 0 || rng.Intn(12) == 0
